@@ -65,57 +65,10 @@ theorem simplify_preserves_denotation (excl fmark : List Char)
     (markerKeep_of_hasSubst fmark hat) raw multi fstr hlex
   simpa [PreservesWith, Preserves, simplifyWith, simplify, simplifyF] using h
 
-/-- the list as coded on the pinned tree -/
-def pinnedExcluded : List Char := ['\n', '\'']
-
-/-- **counterexample** (F-FMT-BACKSLASH): with the pinned list the statement is false —
-`'''a\nb'''` (backslash, `n`) is rewritten to `'a\nb'`, which denotes a newline -/
-theorem simplify_preserves_denotation_counterexample :
-    ¬ simplify_preserves_denotation_statement pinnedExcluded ['@'] := by
-  intro h
-  have := (h ['a', '\\', 'n', 'b'] true false (by simp)).2
-  revert this
-  decide
-
-/-- second counterexample: `'''\'''` is rewritten to `'\'`, which does not lex as a string token -/
-theorem simplify_unlexable_counterexample :
-    ¬ simplify_preserves_denotation_statement pinnedExcluded ['@'] := by
-  intro h
-  have := (h ['\\'] true false (by simp)).1
-  revert this
-  decide
-
-/-- third counterexample: `f'''\x40a\x40'''` (no `@` in the raw value) becomes the substituting `f'\x40a\x40'` -/
-theorem simplify_fstring_counterexample :
-    ¬ simplify_preserves_denotation_statement pinnedExcluded ['@'] := by
-  intro h
-  have := (h "\\x40a\\x40".toList true true (by simp)).2
-  revert this
-  decide
-
-/-- **partial theorem** that holds of the code as pinned: for values without a backslash, any excluded list
-containing the quote (newline need not even be in it) -/
-theorem simplify_preserves_denotation_partial (excl fmark : List Char)
-    (hq : '\'' ∈ excl) (hat : '@' ∈ fmark) (raw : List Char) (multi fstr : Bool)
-    (hlex : multi = false → plainLexable raw = true) (hnb : multi = true → '\\' ∉ raw) :
-    Preserves excl fmark (parseStr raw multi fstr) := by
-  -- adding the backslash to the list does not change what rule 1 does on a backslash-free value
-  have key := simplify_preserves_denotation ('\\' :: excl) fmark (List.mem_cons_of_mem _ hq) (by simp) hat
-    raw multi fstr hlex
-  have e : simplifyMulti ('\\' :: excl) (parseStr raw multi fstr) = simplifyMulti excl (parseStr raw multi fstr) := by
-    cases multi with
-    | false => simp [simplifyMulti, parseStr]
-    | true =>
-      have hm : '\\' ∉ raw := hnb rfl
-      simp [simplifyMulti, parseStr, List.any_cons, hm]
-  unfold Preserves at key ⊢
-  simp only [simplify, Bool.not_true, Bool.false_eq_true, if_false] at key ⊢
-  rw [e] at key
-  exact key
-
-/-- obligations on the live tables (regenerated from /repo on every run) under which the partial theorem
+/-- obligations on the live tables (regenerated from /repo on every run) under which the full theorem
 applies to the code as it is now -/
 theorem live_excluded_has_quote : '\'' ∈ simplifyExcluded := by decide
+theorem live_excluded_has_backslash : '\\' ∈ simplifyExcluded := by decide
 theorem live_markers_have_at : '@' ∈ fstringMarkers := by decide
 
 /-- the live formatter keeps the `f` on every probed placeholder shape that the interpreter substitutes into
@@ -134,29 +87,30 @@ def shapesWitness (t : List (List Nat × Bool × Bool)) : Option (List Nat) :=
 
 theorem live_fstring_shapes_ok : shapesOk fstringShapes = true := by decide
 
-theorem simplify_live_partial (raw : List Char) (multi fstr : Bool)
-    (hlex : multi = false → plainLexable raw = true) (hnb : multi = true → '\\' ∉ raw) :
-    Preserves simplifyExcluded fstringMarkers (parseStr raw multi fstr) :=
-  simplify_preserves_denotation_partial _ _ live_excluded_has_quote live_markers_have_at raw multi fstr hlex hnb
+/-- **the property's string clause for the code as it is**: with the regenerated tables (excluded list
+`['\n', "'", '\\']` since the repair of F-FMT-BACKSLASH, marker `@`) every string token the lexer can produce
+still lexes and denotes the same string after `TrimWhitespaces.visit_StringNode` -/
+theorem simplify_live : simplify_preserves_denotation_statement simplifyExcluded fstringMarkers :=
+  simplify_preserves_denotation _ _ live_excluded_has_quote live_excluded_has_backslash live_markers_have_at
 
-/-- once the live list contains the backslash the full statement holds of the live code (no re-proof needed) -/
-theorem simplify_live_full (hb : '\\' ∈ simplifyExcluded) :
-    simplify_preserves_denotation_statement simplifyExcluded fstringMarkers :=
-  simplify_preserves_denotation _ _ live_excluded_has_quote hb live_markers_have_at
-
-example : Preserves pinnedExcluded ['@'] (parseStr "a b.c".toList true true) := by decide
-example : (simplify pinnedExcluded ['@'] true (parseStr "a b.c".toList true true)).multi = false := by decide
+/-- non-vacuity: the rule does fire (`f'''a b.c'''` becomes `'a b.c'`) and does not fire on a backslash -/
+example : (simplify simplifyExcluded fstringMarkers true (parseStr "a b.c".toList true true)) =
+    { raw := "a b.c".toList, value := "a b.c".toList, multi := false, fstr := false } := by decide
+example : (simplify simplifyExcluded fstringMarkers true (parseStr "a\\nb".toList true false)).multi = true := by decide
 
 /-! ### `files([...])` flattening -/
 
-/-- when the rewrite applies, the call was `files(<one array, no keywords>)` whose opening bracket carries no
-comment, and the new call has exactly the array's argument-list node as its argument list -/
-theorem files_flatten_same_args (t t' : Tree) (h : flattenFiles t = some t') :
+/-- when one turn of the rewrite applies, the call was `files(<one array, no keywords>)`, none of the whitespace
+nodes that disappear (brackets, array, outer argument list, outer commas) holds anything but blanks, and the new
+call has exactly the array's argument-list node as its argument list -/
+theorem files_flatten_same_args (t t' : Tree) (h : flattenStep t = some t') :
     ∃ fl tx nm lp afl atx akids aws rp ws k1 k2 lb inner rb k3,
       t = .node .func fl tx [nm, lp, .node .args afl atx akids aws, rp] ws ∧
       positional akids = [.node .array k1 k2 [lb, inner, rb] k3] ∧ (keywords akids).isEmpty = true ∧
+      (blankWs lb = true ∧ blankWs rb = true ∧ (MesonModel.Py.strip k3).isEmpty = true ∧
+        (MesonModel.Py.strip aws).isEmpty = true ∧ (commasOf akids).all blankWs = true) ∧
       t' = .node .func fl tx [nm, lp, inner, rp] ws := by
-  unfold flattenFiles at h
+  unfold flattenStep at h
   split at h
   · rename_i fl tx nm lp afl atx akids aws rp ws
     split at h
@@ -165,13 +119,45 @@ theorem files_flatten_same_args (t t' : Tree) (h : flattenFiles t = some t') :
         split at h
         · rename_i k1 k2 lb inner rb k3 hpos
           split at h
-          · simp at h
-            exact ⟨fl, tx, _, lp, afl, atx, akids, aws, rp, ws, k1, k2, lb, inner, rb, k3, rfl, hpos, hcond.2, h.symm⟩
+          · rename_i hblank
+            simp only [Bool.and_eq_true] at hblank
+            simp at h
+            exact ⟨fl, tx, _, lp, afl, atx, akids, aws, rp, ws, k1, k2, lb, inner, rb, k3, rfl, hpos, hcond.2,
+              ⟨hblank.1.1.1.1.1, hblank.1.1.1.1.2, hblank.1.1.1.2, hblank.1.1.2, hblank.1.2⟩, h.symm⟩
           · simp at h
         · simp at h
       · simp at h
     · simp at h
   · simp at h
+
+theorem mem_hash_dropWhile_isSpace (m : List Char) (h : '#' ∈ m) : '#' ∈ m.dropWhile MesonModel.Py.isSpace := by
+  induction m with
+  | nil => simp at h
+  | cons c rest ih =>
+    simp only [List.dropWhile_cons]
+    split
+    · rename_i hc
+      have hne : c ≠ '#' := by intro e; subst e; revert hc; decide
+      have : '#' ∈ rest := by
+        rcases List.mem_cons.mp h with e | e
+        · exact absurd e.symm hne
+        · exact e
+      exact ih this
+    · exact h
+
+/-- a whitespace value that is blank after `strip()` holds no comment: the guard of the rewrite is what keeps
+comments from being deleted -/
+theorem blank_has_no_comment (w : List Char) (h : (MesonModel.Py.strip w).isEmpty = true) : '#' ∉ w := by
+  intro hm
+  have hs : MesonModel.Py.strip w = [] := by simpa using h
+  have h1 : '#' ∈ MesonModel.Py.lstrip w := mem_hash_dropWhile_isSpace w hm
+  have h2 : '#' ∈ MesonModel.Py.rstrip (MesonModel.Py.lstrip w) := by
+    unfold MesonModel.Py.rstrip
+    have := mem_hash_dropWhile_isSpace (MesonModel.Py.lstrip w).reverse (by simpa using h1)
+    simpa using this
+  unfold MesonModel.Py.strip at hs
+  rw [hs] at h2
+  simp at h2
 
 /-- flattening does not change the erased program beyond replacing the one-array argument list by the
 array's own argument list: the function name and everything outside the call are untouched -/
